@@ -66,6 +66,8 @@ Proof.
   - apply negb_true_iff in H. pose proof (clampw_nz zs w Hz H) as Hc.
     unfold client, api, op_prog, mtctx_create, pool_create. rewrite H, Hc. run_analysis.
   - run_analysis.
+  - apply negb_true_iff in H.
+    unfold client, api, op_prog, mt_resize_state, mt_resize, pool_resize. rewrite H. split_tests; run_analysis.
 Qed.
 Lemma mtctx_teardown : forall zs, all_res aclean (aexecS F true (teardown_mtctx zs) St_mtctx) = true.
 Proof. intros zs. run_analysis. Qed.
